@@ -348,6 +348,24 @@ func checkC11(c *mc.Ctx) {
 	c.Ev.AddScenario(mc.Scenario{Name: "adaptation fields", SpaceSize: total, Executed: done, Exhaustive: done == total,
 		Bound: "144 shapes x 8 indicator sets x (defaults + every stuffing length 1..183 with payload / filling the packet) ; for indicator sets {none, all}: every field over its alphabet (33-bit values: 0, every single bit, all ones, alternating; splice countdown all 256; private data length 0..150) and every pair of fields over 3 values"})
 	c.Ev.DistinctAdd(done)
+	// whole streams: read ALL packets first, re-emit them afterwards (a packet must stay valid
+	// after later NextPacket calls): the output must be the input, byte for byte
+	var nre int64
+	for _, st := range c19Streams(c.Seed) {
+		d := astits.NewDemuxer(context.Background(), bytes.NewReader(st.Bytes), astits.DemuxerOptPacketSize(188))
+		po := DrainPackets(d, len(st.Bytes))
+		rw := NewRecWriter()
+		m := astits.NewMuxer(context.Background(), rw)
+		for _, p := range po.Pkts {
+			m.WritePacket(p)
+		}
+		nre += int64(len(po.Pkts))
+		if !bytes.Equal(rw.Buf, st.Bytes) {
+			c.Rep.Report("reemit-stream-differs", map[string]any{"kind": "stream", "stream": st.Name, "bytes": mc.Hex(st.Bytes), "message": "packets read with NextPacket and re-emitted after the whole stream was read do not reproduce the stream"})
+		}
+		c.Ev.Class("stream-reemitted", 1)
+	}
+	c.Ev.AddScenario(mc.Scenario{Name: "re-emit whole streams", SpaceSize: nre, Executed: nre, Exhaustive: true, Bound: "every packet of 4 multi-PID streams (all adaptation-field kinds), re-emitted after all packets were read"})
 	c.Ev.Sample(map[string]any{"what": jobs[len(jobs)/2].what, "bytes": mc.Hex(jobs[len(jobs)/2].p.Encode()[:24])})
-	c.Ev.Require("af-length-0", "afc-10")
+	c.Ev.Require("af-length-0", "afc-10", "stream-reemitted")
 }
